@@ -33,6 +33,32 @@ def T():
     return _T
 
 
+def enc_list(items):
+    out = ('nil',)
+    for x in reversed(items):
+        out = ('cons', x, out)
+    return out
+
+
+def enc_cmp(name, fields):
+    """Reference / oracle encoding of a compound struct value: the tagged-list twin of the property
+    (a pair so that it never unifies with a list or an atom, the tag so that different types never unify)."""
+    return ('pair', ('str', '#' + name), enc_list(list(fields)))
+
+
+def dec_cmp(t):
+    """(name, [fields]) if `t` encodes a compound struct value, else None"""
+    if t[0] == 'pair' and t[1][0] == 'str' and isinstance(t[1][1], str) and t[1][1].startswith('#'):
+        fields, cur = [], t[2]
+        while cur[0] == 'cons':
+            fields.append(cur[1])
+            cur = cur[2]
+        if cur[0] == 'nil':
+            return t[1][1][1:], fields
+    return None
+
+
+
 STR_IDS = {}
 
 
@@ -157,8 +183,24 @@ class TermSpace(object):
                     obj = obj.fields[0]
             if isinstance(obj, Adt) and obj.ty == '(tuple)':
                 return ('pair', self.view(obj.fields[0]), self.view(obj.fields[1]))
+            if isinstance(obj, Adt) and obj.ty.startswith('_Inner'):
+                # object generated by #[compound] for `struct Name(..)`: encoded as the tagged-list twin
+                return enc_cmp(obj.ty[len('_Inner'):], [self.field_view(f) for f in obj.fields])
             return ('comp', obj.ty, [self.view(f) if _is_term(f) else ('opaque', f) for f in obj.fields])
         raise NotEncodable('term kind ' + k)
+
+    def field_view(self, f):
+        """field of a #[compound] object: LTerm | typed wrapper struct { inner: LTerm } | Option<wrapper>"""
+        from values import load
+        while isinstance(f, Ref):
+            f = load(f, None)
+        if isinstance(f, Adt) and f.ty == 'LTerm':
+            return self.view(f)
+        if isinstance(f, Adt) and f.ty == 'Option':
+            return enc_cmp('None', []) if f.var == 0 else enc_cmp('Some', [self.field_view(f.fields[0])])
+        if isinstance(f, Adt) and len(f.fields) == 1:
+            return self.field_view(f.fields[0])
+        raise NotEncodable('compound field %r' % (f,))
 
     def name_of(self, vid):
         return self.var_ids.get(vid)
@@ -297,7 +339,12 @@ def rust_of_value(model, tval, depth=0):
             return '[%s]' % ', '.join(items)
         return '[%s | %s]' % (', '.join(items), rust_of_value(model, cur, depth + 1))
     if d == 'pair':
-        return '(%s, %s)' % (rust_of_value(model, tval.arg(0), depth + 1), rust_of_value(model, tval.arg(1), depth + 1))
+        a, b = rust_of_value(model, tval.arg(0), depth + 1), rust_of_value(model, tval.arg(1), depth + 1)
+        if a.startswith('"#'):
+            if not (b.startswith('[') and '|' not in b):
+                raise NotEncodable('ground instance is not a well-formed compound value')
+            return '%s(%s)' % (a[2:-1], b[1:-1]) if a != '"#None"' else 'None'
+        return '(%s, %s)' % (a, b)
     return '"opaque"'
 
 
@@ -328,6 +375,9 @@ def rust_of_view(space, v, model, sigma):
             return '[%s]' % ', '.join(items)
         return '[%s | %s]' % (', '.join(items), rust_of_view(space, cur, model, sigma))
     if k == 'pair':
+        d = dec_cmp(v)
+        if d is not None:
+            return 'None' if d[0] == 'None' else '%s(%s)' % (d[0], ', '.join(rust_of_view(space, f, model, sigma) for f in d[1]))
         return '(%s, %s)' % (rust_of_view(space, v[1], model, sigma), rust_of_view(space, v[2], model, sigma))
     raise NotEncodable('rust_of_view ' + k)
 
